@@ -482,3 +482,76 @@ def shrink_candidates(n):
             ch2 = list(ch)
             ch2[i] = c2
             yield with_children(n, ch2)
+
+
+# ---------------------------------------------------------------------------------------------------
+# modular specifications (sub-specifications and constants)
+
+def _subtree_paths(n, path=()):
+    yield path, n
+    for i, c in enumerate(children(n)):
+        for x in _subtree_paths(c, path + (i,)):
+            yield x
+
+
+def _replace_at(n, path, new):
+    if not path:
+        return new
+    ch = children(n)
+    ch[path[0]] = _replace_at(ch[path[0]], path[1:], new)
+    return with_children(n, ch)
+
+
+def modularize(rng, ast, max_subs=3, prefer_stateful=True, names=('p1', 'p2', 'p3', 'p4')):
+    """Extract random sub-trees into named sub-specifications. Returns (defs, top): defs is an ordered list of
+    [name, ast] (later ones may refer to earlier ones), top refers to them through ["ref", name]. Every occurrence
+    of an extracted sub-tree (structurally equal) is replaced, so a sub-spec may be referenced several times."""
+    defs = []
+    top = ast
+    k = rng.randint(1, max_subs)
+    for i in range(k):
+        cands = [(p, x) for p, x in _subtree_paths(top) if p and x[0] not in ('var', 'const', 'ref')]
+        if not cands:
+            break
+        if prefer_stateful:
+            st = [(p, x) for p, x in cands if any(y[0] in TEMPORAL for y in walk(x))]
+            if st and rng.random() < 0.7:
+                cands = st
+        p, sub = cands[rng.randrange(len(cands))]
+        name = names[len(defs)]
+        kk = key(sub)
+
+        def repl(n):
+            if key(n) == kk:
+                return ['ref', name]
+            return with_children(n, [repl(c) for c in children(n)])
+        top = repl(top)
+        defs.append([name, sub])
+        if top[0] == 'ref':
+            break
+    # order: a def extracted later may contain refs to earlier names only if it was extracted from a tree that
+    # already had them; refs inside sub are to earlier defs by construction -> definition order = extraction order
+    # but an earlier def can not contain a later name, fine. Later defs must be *declared after* the ones they use.
+    return order_defs(defs), top
+
+
+def order_defs(defs):
+    """topological order so that every definition only refers to earlier ones"""
+    d = dict((n, a) for n, a in defs)
+    out = []
+    done = set()
+
+    def visit(n):
+        if n in done:
+            return
+        for r in refs_of(d[n]):
+            visit(r)
+        done.add(n)
+        out.append([n, d[n]])
+    for n, _ in defs:
+        visit(n)
+    return out
+
+
+def inline(defs, top):
+    return subst_refs(top, dict((n, a) for n, a in defs))
